@@ -46,6 +46,10 @@ CHECKS = {
          "runtime monitor of panic attribution: every consumer call is wrapped in its own recover and logs where and with which value a panic surfaced; compared with the reference coroutine (iter.Pull propagates the body's panic out of the resuming call)",
          "Exploration: directed cases (panic between yields, in yield arguments, loop conditions, for-post, switch tags, delegates, closures called after a yield, two live iterators) + PRNG programs with tape-guarded explicit and run-time panics at random statement positions; full-trace equality up to and including the panicking call.",
          E1NOTE + "Nothing is compared after the panicking call (the property does not specify it)."),
+ "C12": ("E1 diff-trace (rejection outcomes)",
+         "runtime monitor of compile outcomes and, when compilation succeeds, of the trace vs the reference coroutine in which the unsupported construct executes natively; a co.go trap overlay observes surviving Yield stub calls directly",
+         "Exploration: 18 unsupported constructs x up to 5 statement positions + signature cases + 7 negative controls, one real compiler invocation each; outcome classes rejected / unbuildable / equivalent are fine, divergent or STUB-YIELD is a violation; negative controls must be accepted and equivalent.",
+         E1NOTE),
  "C13": ("E1 diff-trace (native source as reference)",
          "runtime differential monitor: the source package built natively vs the generated package on the same driver, result/effect traces; build of the generated package",
          "Exploration: directed bystander declarations (closure shapes func(ps){return f(ps)} over every kind of callee, constants, initialisers, methods) co-located with generators; the natively built source is the oracle.",
